@@ -903,20 +903,62 @@ func (t *Typechecker) checkFieldAccess(Lhs *ast.Ident, originalType ddptypes.Typ
 	for globalTable.Enclosing() != nil {
 		globalTable = globalTable.Enclosing()
 	}
+	var structDecl *ast.StructDecl
 	if decl, exists, _ := globalTable.LookupDecl(structType.Name); exists {
-		if structDecl, isStructDecl := decl.(*ast.StructDecl); isStructDecl && structDecl.Mod != t.Module {
-			for _, field := range structDecl.Fields {
-				if field.Name() == Lhs.Literal.Literal {
-					if field, ok := field.(*ast.VarDecl); ok && !field.IsPublic {
-						t.errExpr(ddperror.TYP_PRIVATE_FIELD_ACCESS, Lhs, "Das Feld %s der Struktur %s ist nicht öffentlich", Lhs.Literal.Literal, originalType.String())
-					}
-					break
+		structDecl, _ = decl.(*ast.StructDecl)
+	}
+	// the name of the type might not have been imported (only a variable or function of that type was)
+	if structDecl == nil || !declaresStructType(structDecl, structType) {
+		structDecl = findImportedStructDecl(t.Module, structType, make(map[*ast.Module]struct{}, 8))
+	}
+	if structDecl != nil && structDecl.Mod != t.Module {
+		for _, field := range structDecl.Fields {
+			if field.Name() == Lhs.Literal.Literal {
+				if field, ok := field.(*ast.VarDecl); ok && !field.IsPublic {
+					t.errExpr(ddperror.TYP_PRIVATE_FIELD_ACCESS, Lhs, "Das Feld %s der Struktur %s ist nicht öffentlich", Lhs.Literal.Literal, originalType.String())
 				}
+				break
 			}
 		}
 	}
 
 	return fieldType
+}
+
+// reports wether decl is the declaration of structType (or of the generic struct it was instantiated from)
+func declaresStructType(decl *ast.StructDecl, structType *ddptypes.StructType) bool {
+	if decl.Type == ddptypes.Type(structType) {
+		return true
+	}
+	genericType, _ := ddptypes.InstantiatedFrom(structType)
+	return genericType != nil && decl.Type == ddptypes.Type(genericType)
+}
+
+// searches the (transitively) imported modules of mod for the declaration of structType
+func findImportedStructDecl(mod *ast.Module, structType *ddptypes.StructType, visited map[*ast.Module]struct{}) *ast.StructDecl {
+	if mod == nil {
+		return nil
+	}
+	if _, ok := visited[mod]; ok {
+		return nil
+	}
+	visited[mod] = struct{}{}
+	for _, imprt := range mod.Imports {
+		for _, imported := range imprt.Modules {
+			if imported == nil || imported.Ast == nil {
+				continue
+			}
+			if decl, exists, _ := imported.Ast.Symbols.LookupDecl(structType.Name); exists {
+				if structDecl, ok := decl.(*ast.StructDecl); ok && declaresStructType(structDecl, structType) {
+					return structDecl
+				}
+			}
+			if structDecl := findImportedStructDecl(imported, structType, visited); structDecl != nil {
+				return structDecl
+			}
+		}
+	}
+	return nil
 }
 
 // reports wether the given type from this module of the given table is public
